@@ -35,6 +35,8 @@ type Options struct {
 	MinValuesPolicy string `json:"minValuesPolicy"` // "" = Strict
 	PreferIgnore    bool   `json:"preferIgnore"`
 	CapacityBuffer  bool   `json:"capacityBuffer"`
+	// Project: "" | "c06" (Cmd/QCmd additionally carry the SchedulingGuards-shaped cluster and claims, see c06.go)
+	Project string `json:"project,omitempty"`
 }
 
 type OfferingSpec struct {
@@ -127,6 +129,8 @@ type NodeSpec struct {
 	Consolidatable string `json:"consolidatable"`
 	Tainted        bool   `json:"tainted"` // karpenter.sh/disrupted:NoSchedule already present (left-over)
 	ExpireAfter    int    `json:"expireAfter"` // -1 Never
+	// Taints: extra persistent taints on the Node (C06 scenarios)
+	Taints []TaintSpec `json:"taints,omitempty"`
 }
 
 type PodSpec struct {
@@ -151,6 +155,9 @@ type PodSpec struct {
 	ToleratesDisruption bool `json:"toleratesDisruption"`
 	// ReadyFalse: PodReady condition False (matters for PDBs with unhealthyPodEvictionPolicy AlwaysAllow).
 	ReadyFalse bool `json:"readyFalse"`
+	// Sel: nodeSelector with the short keys of spec/SCHED_TRACE.md (zone, ct, it, ...); Tol: extra tolerations (C06 scenarios)
+	Sel map[string]string `json:"sel,omitempty"`
+	Tol []TolSpec         `json:"tol,omitempty"`
 }
 
 type PDBSpec struct {
@@ -202,6 +209,12 @@ type Step struct {
 	Pod    *PodSpec `json:"pod,omitempty"`
 	PDB    *PDBSpec `json:"pdb,omitempty"`
 	During []Step   `json:"during,omitempty"`
+	// SetOffering{type, zone, ct, price (1/1000, -1 keep), available}: one offering of the provider catalog changes
+	Type      string `json:"type,omitempty"`
+	Zone      string `json:"zone,omitempty"`
+	CT        string `json:"ct,omitempty"`
+	Price     int    `json:"price,omitempty"`
+	Available bool   `json:"available,omitempty"`
 }
 
 // Defaults: absent integer fields that mean "none" default to -1 (not Go's 0).
